@@ -1,8 +1,9 @@
 #!/bin/bash
 # Create a private working copy of /verif for a builder (outside /verif and /repo): tools/mkscratch.sh c09
+# (the compiled .lake directory is copied too, so the first `lake build` there is a no-op)
 set -e
 name="$1"
 dst="/tmp/build/$name"
 mkdir -p /tmp/build
-rsync -a --delete --exclude .git --exclude 'lean/.lake' --exclude replays --exclude __pycache__ /verif/ "$dst/"
+rsync -a --delete --exclude .git --exclude replays --exclude __pycache__ /verif/ "$dst/"
 cd "$dst/lean" && lake build Fca fcadriver >/dev/null 2>&1 && echo "built $dst"
